@@ -14,6 +14,7 @@ import AlgoVerif.Proofs.C14Prim
 import AlgoVerif.Proofs.C14Admits
 import AlgoVerif.Proofs.C14Kept
 import AlgoVerif.Proofs.C14Gen
+import AlgoVerif.Proofs.C14WGen
 import AlgoVerif.Props.C18
 /-!
 # C14 — property theorems
@@ -753,3 +754,79 @@ example : (Generated.Graph.NewDirected 3 #[#[0, 1], #[1, 2], #[2, 0], #[0, 7]]).
 example : Gen.WFd (GObj.build .directed 3 [⟨0, 1, 0⟩, ⟨1, 1, 0⟩]) := (Gen.D_New 3 _).2
 example : Gen.WFu (GObj.build .undirected 3 [⟨0, 1, 0⟩, ⟨1, 1, 0⟩]) := (Gen.U_New 3 _).2
 example : Generated.Graph.ConnectedComponents.Components ⟨2, #[0, 1, 0, 1]⟩ = .ok #[#[0, 2], #[1, 3]] := by decide
+
+/-! ### the weighted types (`Generated/C14WGen.lean`, rewritten from `graph/{weighted_directed,weighted_undirected}.go`)
+
+The Go code only copies a `float64` weight (the translator refuses every operator on the type), the hand Model carries an
+`Int`: each statement holds for EVERY map `wOf : Int → Go.F64` of the hand Model's weights to float64 values.
+`Gen.ofWD wOf o` / `Gen.ofWU wOf o`: the object `o` as the generated structure, an adjacency entry `x` being the edge struct
+`⟨x.e.a, x.e.b, wOf x.e.w⟩`; `Gen.WFwd` / `Gen.WFwu`: lengths of `adj` / `ins`, and for the undirected type that an entry of
+`adj[v]` has `v` as an endpoint and stores the other one (so `e.Other(v)` is the neighbour the hand Model stores). -/
+
+/-- `NewWeightedDirected(V, edges...)` is `GObj.build`; for `V < 0` it panics. -/
+theorem C14_generated_wdirected_new (wOf : Int → Go.F64) (n : Nat) (es : List EdgeIn) (V : Int) (hV : V < 0)
+    (edges : Array Generated.GraphW.DirectedEdge) :
+    Generated.GraphW.NewWeightedDirected (n : Int) (Gen.dedgesOf wOf es) = .ok (Gen.ofWD wOf (GObj.build .wdirected n es)) ∧
+    Gen.WFwd (GObj.build .wdirected n es) ∧
+    Generated.GraphW.NewWeightedDirected V edges = .panic :=
+  ⟨(Gen.WD_New wOf n es).1, (Gen.WD_New wOf n es).2, Gen.WD_New_neg V hV edges⟩
+
+/-- `(*WeightedDirected).AddEdge(DirectedEdge{u, v, w})` at any point of a history, for every pair of `int`s. -/
+theorem C14_generated_wdirected_addEdge (wOf : Int → Go.F64) (o : GObj) (hw : Gen.WFwd o) (u v wt : Int) :
+    Generated.GraphW.WeightedDirected.AddEdge (Gen.ofWD wOf o) ⟨u, v, wOf wt⟩ = .ok (Gen.ofWD wOf (o.addEdge u v wt)) ∧
+    Gen.WFwd (o.addEdge u v wt) :=
+  Gen.WD_AddEdge wOf o hw u v wt
+
+/-- `V()`, `E()`, `isVertexValid`, `InDegree`, `OutDegree`, `Adj` (the value returned; `nil` and the empty list are both
+`#[]`) of `*WeightedDirected`, and `Edges()` (every list of `adj` in turn): the hand Model's, for every object and `int`. -/
+theorem C14_generated_wdirected_accessors (wOf : Int → Go.F64) (o : GObj) (hk : o.kind.isDirected = true) (v : Int) :
+    Generated.GraphW.WeightedDirected.V (Gen.ofWD wOf o) = o.V ∧ Generated.GraphW.WeightedDirected.E (Gen.ofWD wOf o) = o.E ∧
+    Generated.GraphW.WeightedDirected.isVertexValid (Gen.ofWD wOf o) v = o.g.isVertexValid v ∧
+    Generated.GraphW.WeightedDirected.InDegree (Gen.ofWD wOf o) v = o.inDegree v ∧
+    Generated.GraphW.WeightedDirected.OutDegree (Gen.ofWD wOf o) v = o.outDegree v ∧
+    Generated.GraphW.WeightedDirected.Adj (Gen.ofWD wOf o) v = (o.adjOf v).map (Gen.sliceOf (Gen.deOf wOf)) ∧
+    Generated.GraphW.WeightedDirected.Edges (Gen.ofWD wOf o) = .ok (o.edges.map (Gen.deE wOf)).toArray :=
+  ⟨Gen.WD_V wOf o, Gen.WD_E wOf o, Gen.WD_isVertexValid wOf o v, Gen.WD_InDegree wOf o v, Gen.WD_OutDegree wOf o v,
+    Gen.WD_Adj wOf o v, Gen.WD_Edges wOf o hk⟩
+
+/-- `(*WeightedDirected).Reverse()` (each stored edge re-added as `DirectedEdge{e.To(), e.From(), e.Weight()}`), with
+fuel for the `V+1` tests of its loop, is `GObj.reverse`. -/
+theorem C14_generated_wdirected_reverse (wOf : Int → Go.F64) (fuel : Nat) (o : GObj) (hw : Gen.WFwd o)
+    (hf : o.g.n + 1 ≤ fuel) :
+    Generated.GraphW.WeightedDirected.Reverse fuel (Gen.ofWD wOf o) = .ok (Gen.ofWD wOf o.reverse) ∧ Gen.WFwd o.reverse :=
+  Gen.WD_Reverse wOf fuel o hw hf
+
+/-- `NewWeightedUndirected(V, edges...)` is `GObj.build`; for `V < 0` it panics. -/
+theorem C14_generated_wundirected_new (wOf : Int → Go.F64) (n : Nat) (es : List EdgeIn) (V : Int) (hV : V < 0)
+    (edges : Array Generated.GraphW.UndirectedEdge) :
+    Generated.GraphW.NewWeightedUndirected (n : Int) (Gen.uedgesOf wOf es) = .ok (Gen.ofWU wOf (GObj.build .wundirected n es)) ∧
+    Gen.WFwu (GObj.build .wundirected n es) ∧
+    Generated.GraphW.NewWeightedUndirected V edges = .panic :=
+  ⟨(Gen.WU_New wOf n es).1, (Gen.WU_New wOf n es).2, Gen.WU_New_neg V hV edges⟩
+
+/-- `(*WeightedUndirected).AddEdge(UndirectedEdge{u, v, w})` (`v := e.Either(); w := e.Other(v)`, the edge stored in both
+lists) at any point of a history, self-loops included. -/
+theorem C14_generated_wundirected_addEdge (wOf : Int → Go.F64) (o : GObj) (hw : Gen.WFwu o) (u v wt : Int) :
+    Generated.GraphW.WeightedUndirected.AddEdge (Gen.ofWU wOf o) ⟨u, v, wOf wt⟩ = .ok (Gen.ofWU wOf (o.addEdge u v wt)) ∧
+    Gen.WFwu (o.addEdge u v wt) :=
+  Gen.WU_AddEdge wOf o hw u v wt
+
+/-- `V()`, `E()`, `isVertexValid`, `Degree`, `Adj` of `*WeightedUndirected`; `Edges()` — each edge once, listed from
+the endpoint `v` with `e.Other(v) > v`, a self-loop never — is the hand Model's `edges`; `Other` is its `switch`. -/
+theorem C14_generated_wundirected_accessors (wOf : Int → Go.F64) (o : GObj) (hw : Gen.WFwu o) (v : Int)
+    (e : Generated.GraphW.UndirectedEdge) :
+    Generated.GraphW.WeightedUndirected.V (Gen.ofWU wOf o) = o.V ∧ Generated.GraphW.WeightedUndirected.E (Gen.ofWU wOf o) = o.E ∧
+    Generated.GraphW.WeightedUndirected.isVertexValid (Gen.ofWU wOf o) v = o.g.isVertexValid v ∧
+    Generated.GraphW.WeightedUndirected.Degree (Gen.ofWU wOf o) v = o.outDegree v ∧
+    Generated.GraphW.WeightedUndirected.Adj (Gen.ofWU wOf o) v = (o.adjOf v).map (Gen.sliceOf (Gen.ueOf wOf)) ∧
+    Generated.GraphW.WeightedUndirected.Edges (Gen.ofWU wOf o) = .ok (o.edges.map (Gen.ueE wOf)).toArray ∧
+    Generated.GraphW.UndirectedEdge.Other e v = (if v = e.v then e.w else if v = e.w then e.v else -1) :=
+  ⟨Gen.WU_V wOf o, Gen.WU_E wOf o, Gen.WU_isVertexValid wOf o v, Gen.WU_Degree wOf o v, Gen.WU_Adj wOf o v,
+    Gen.WU_Edges wOf o hw, Gen.other_eq e v⟩
+
+-- the generated code run on the weighted undirected graph 0–1 (w₁), 1–1 (w₂), 2–0 (w₃) over 3 vertices: Edges() lists
+-- 0–1 once, from vertex 0, the edge {2,0} once, from vertex 0 too (Other(0) = 2 > 0), and never the self-loop
+example : (Generated.GraphW.NewWeightedUndirected 3 #[⟨0, 1, ⟨11⟩⟩, ⟨1, 1, ⟨22⟩⟩, ⟨2, 0, ⟨33⟩⟩]).bind
+    Generated.GraphW.WeightedUndirected.Edges = .ok #[⟨0, 1, ⟨11⟩⟩, ⟨2, 0, ⟨33⟩⟩] := by decide
+example : Gen.WFwu (GObj.build .wundirected 3 [⟨0, 1, 5⟩, ⟨1, 1, -2⟩, ⟨2, 0, 7⟩]) := (Gen.WU_New (fun _ => ⟨0⟩) 3 _).2
+example : Gen.WFwd (GObj.build .wdirected 3 [⟨0, 1, 5⟩, ⟨1, 1, -2⟩]) := (Gen.WD_New (fun _ => ⟨0⟩) 3 _).2
